@@ -25,7 +25,8 @@ CHECKS = {
         "its doc comment, flags and service split - for every sequence of abstract lines up to the bound, and that "
         "inserting empty/blank/comment lines or a final newline does not change the structure. Every TLC state is rendered "
         "as DSDL text in several formatting variants, read with read_namespace and compared with the specification's "
-        "result; accepted models are rendered back to canonical DSDL and re-read.",
+        "result; accepted models are rendered back to canonical DSDL and re-read; the hook trace of every execution (flush / "
+        "commit / statement / finalize steps) must equal the step log the specification produces.",
    note="Bounded: all line sequences of length <=4 (quick) / <=5 (thorough) over a 17-symbol alphabet and <=3/4 over the "
         "full 27-symbol alphabet; concrete tokens per kind are fixed (uint8 fields, uint16 constants, voidN paddings). "
         "Doc comments are compared under formatting changes that add or remove no comment and no empty line.",
@@ -36,7 +37,8 @@ CHECKS = {
         "(syntax, undefined identifier, failed assertion, lazily committed attribute errors, misplaced directives) at every "
         "position with arbitrary surrounding lines, that prints delivered before a failure are exactly the earlier @print "
         "lines, and on Reader.tla that error paths and print events name the file that contains the fault / directive. "
-        "Every state is replayed (LF and CRLF) and (class, path, line) and print events are compared.",
+        "Every state is replayed (LF and CRLF, statements spanning two physical lines) and (class, path, line), print events "
+        "and the recorded step traces (parser / builder steps, reader steps) are compared with the specification.",
    note="Bounded line sequences (<=4 quick, <=5 thorough) and dependency depth <=3. Known finding F4b (print path of a "
         "dependency) is listed in known_findings.json.",
    technique="TLA+ state machines checked by TLC; every state replayed into read_namespace, error location compared",
@@ -80,7 +82,9 @@ CHECKS = {
         "ZeroExtension (with the delimiter-header carve-out) on every bit string up to the bound. The real deserialize() is "
         "then called on exhaustively and systematically enumerated byte strings for every type of the universe; each call "
         "is recorded and judged by TLC against the specification's decoder (call records, total verdict); any exception "
-        "other than SerDesError / ValueError is a violation; returned objects are re-serialised and re-read.",
+        "other than SerDesError / ValueError is a violation; returned objects are re-serialised and re-read. Recorded bit reader / "
+        "writer steps (fast and slow path, clipped reads, sub-readers) of the harness's calls and of the repository's own serdes "
+        "tests are validated by TLC (TraceWire.tla).",
    note="Bit strings <= 8 bits for two-level types (quick) / <= 16 bits (thorough) on the specification; on the code: all "
         "strings <= 1 byte, 600+ two-byte strings, every prefix and single-bit corruption of four valid representations, "
         "junk / zero suffixes, random strings <= 16 bytes, for up to 500 types (quick, sampled) / all types (thorough). "
@@ -102,7 +106,8 @@ CHECKS = {
         "sorted target loop) that a resolved reference names exactly the definition and version asked for, that missing / "
         "self / cyclic / case-variant / ambiguous references never succeed, and the closure invariants, for every "
         "configuration of the universe. Every configuration is materialised in three directories and read; the file "
-        "identity of every nested type reachable through any referrer, or the error class / path / line, is compared.",
+        "identity of every nested type reachable through any referrer, or the error class / path / line, is compared, and the "
+        "recorded reader steps (begin / resolve / end) must equal the specification's step log.",
    note="Configurations: <= 2 definitions with every reference kind and pairs of spellings (full), 3 definitions with "
         "absolute references (graph shapes; sampled 1/8 in quick). Directories: target root a, lookup b, second lookup a'. "
         "Versions use major 0 so the minor-version rules (C11) do not interfere.",
@@ -122,7 +127,8 @@ CHECKS = {
    text="TLC checks on Reader.tla that no definition outside Targets + Closure is ever parsed (NoLoadOutsideClosure) and that "
         "replacing the body of such a definition leaves the whole outcome unchanged (OutsideIrrelevant), for read_namespace "
         "and read_files with every target subset. Every configuration with an outside definition is read as is and with six "
-        "replacement texts; projections must be identical.",
+        "replacement texts; projections must be identical; the recorded text loads of every run must lie inside the closure and "
+        "the recorded scope of the cross-definition checks must be direct / direct + transitive.",
    note="Replacements: garbage, failing assertion, missing @sealed, @print, service instead of message, undefined reference. "
         "Malformed file names in lookup directories are outside (inspected at listing time).",
    technique="TLA+ closure invariants checked by TLC; paired runs of every configuration against the implementation",
@@ -141,8 +147,10 @@ CHECKS = {
         "name), working directory, target spelling and root designation with the declarative Identity function and the set "
         "of documented (promised) combinations. Each is executed with real directories and chdir: successes must yield the "
         "path-derived identity and back pointers, failures must be InvalidDefinitionError, promised combinations must "
-        "succeed; malformed file names are rejected.",
-   note="The four inference strategies are not transcribed into TLA+; the specification is the declarative contract. "
+        "succeed; malformed file names are rejected. The four inference strategies, from_first_in and the nested-root validation are "
+        "transcribed (NeverWrongIdentity, PromisedSucceeds hold on the model; as-found configs give the F8 counterexamples) and the "
+        "model's outcome is compared with the real outcome for every combination.",
+   note="One root with a second root before / after; root names unique except for one nested directory named like the root. "
         "int() leniency in file names is not judged.",
    technique="TLA+ declarative identity/promise spec enumerated by TLC; every state executed against read_files/read_namespace",
    design="4 C15"),
@@ -178,7 +186,8 @@ CHECKS = {
    text="TLC checks on Funnel.tla that what escapes the layered exception handlers is an InvalidDefinitionError with a path "
         "exactly for raise sites of the InvalidDefinition family, and enumerates every single token mutation (and adjacent "
         "double mutations) of three seed definitions over a 110-entry vocabulary. Every mutated text, 45 corner texts, seeded "
-        "character noise, 31 file-name shapes and 6 duplicate file sets are read: model or InvalidDefinitionError with path.",
+        "character noise, 31 file-name shapes and 6 duplicate file sets are read: model or InvalidDefinitionError with path; the "
+        "recorded chain of exception conversions of every rejected mutation is validated by TLC (TraceFunnel.tla).",
    note="Known finding F10 (4300-digit rendering limit) is matched by its cause. Unbounded power towers are excluded "
         "(bounded magnitude); all Unicode strings are sampled.",
    technique="TLA+ propagation model checked by TLC; TLC-enumerated token mutations and harness noise read by pydsdl",
